@@ -24,8 +24,10 @@ import (
 	"sort"
 	"strconv"
 	"strings"
+	"time"
 
 	"github.com/openGemini/openGemini/lib/util/lifted/vm/protoparser/influx"
+	"github.com/openGemini/openGemini/lib/config"
 	"verifharness/internal/crashfs"
 	"verifharness/internal/gen"
 	"verifharness/internal/tsdrv"
@@ -34,7 +36,7 @@ import (
 const NT = 10 // timestamps 0..9
 
 type Op struct {
-	K    string      `json:"k"` // W F
+	K    string      `json:"k"` // W F FB FE D(rop measurement)
 	Rows []tsdrv.Row `json:"rows,omitempty"`
 }
 
@@ -61,6 +63,7 @@ type Image struct {
 	Match    string  `json:"match"`    // "acked", "acked+inflight" or "" (oracle failed)
 	Diff     []Cell  `json:"diff,omitempty"`
 	Err      string  `json:"err,omitempty"`
+	Extra    []tsdrv.Row `json:"extra,omitempty"` // async replay: a write acknowledged by the re-opened shard while the log was being re-applied
 	Txn      int     `json:"txn"` // pending (non-temporary) transaction files of the series index in the image
 }
 
@@ -69,6 +72,8 @@ type History struct {
 	NWal   int     `json:"nwal"`
 	NSer   int     `json:"nser"`
 	Ops    []Op    `json:"ops"`
+	Auto   bool    `json:"auto"`  // size-triggered (automatic) flushes: memtable limit of 1 byte, 100 ms snapshot timer
+	Async  bool    `json:"async"` // crash images are opened with wal-replay-async = true and written to while the log is re-applied
 	Pre    int     `json:"pre"` // leading warm-up ops (write+flush rounds that age the shard); no crash images there
 	Images []Image `json:"images"`
 	Crash  string  `json:"crash,omitempty"`
@@ -81,6 +86,7 @@ type Flags struct {
 	Late          bool `json:"late"`           // a row at or below already flushed time of its series
 	Partial       bool `json:"partial"`
 	Flushes       int  `json:"flushes"`
+	Drops         int  `json:"drops"`
 }
 
 // ---- generation ----
@@ -163,6 +169,10 @@ func genHistory(r *gen.Rand) (nser, nwal, pre int, ops []Op) {
 		ops = append(ops, Op{K: "FE"})
 	}
 	for len(ops) < n {
+		if r.Chance(1, 14) && len(ops) > 2 {
+			ops = append(ops, Op{K: "D"}) // DROP MEASUREMENT: everything written so far must stay gone
+			continue
+		}
 		switch k := r.Intn(10); {
 		case k < 7:
 			nb := 1
@@ -287,6 +297,22 @@ func newSeriesBeforeFlush() (int, int, int, []Op) {
 	return 4, 2, 0, ops
 }
 
+// fixed history: DROP MEASUREMENT between flushed and unflushed data, later writes to the same name are fresh
+func dropHistory() (int, int, int, []Op) {
+	ops := []Op{
+		{K: "W", Rows: []tsdrv.Row{{S: 0, T: 1, F: []tsdrv.FV{{F: 0, V: 20}}}, {S: 1, T: 1, F: []tsdrv.FV{{F: 0, V: 21}}}}}, {K: "F"},
+		{K: "W", Rows: []tsdrv.Row{{S: 0, T: 2, F: []tsdrv.FV{{F: 0, V: 22}, {F: 1, V: 22}}}}},
+		{K: "W", Rows: []tsdrv.Row{{S: 1, T: 0, F: []tsdrv.FV{{F: 0, V: 23}}}}},
+		{K: "D"},
+		{K: "W", Rows: []tsdrv.Row{{S: 0, T: 2, F: []tsdrv.FV{{F: 1, V: 24}}}}},
+		{K: "F"},
+		{K: "W", Rows: []tsdrv.Row{{S: 1, T: 1, F: []tsdrv.FV{{F: 1, V: 25}}}}},
+		{K: "D"},
+		{K: "W", Rows: []tsdrv.Row{{S: 1, T: 3, F: []tsdrv.FV{{F: 0, V: 26}}}}},
+	}
+	return 2, 2, 0, ops
+}
+
 // ---- run ----
 
 type pending struct {
@@ -341,9 +367,9 @@ func partsOf(imgDir string, nwal int, wal map[string][]int, walEpoch map[string]
 	return
 }
 
-func runHistory(idx int, work string, nser, nwal, pre int, ops []Op, r *gen.Rand, rec *crashfs.Recorder, quick bool) (h History) {
+func runHistory(idx int, work string, nser, nwal, pre int, auto, async bool, ops []Op, r *gen.Rand, rec *crashfs.Recorder, quick bool) (h History) {
 	dense := idx > 100000 // the fixed histories: every first-level crash point, sampled second-level ones
-	h = History{Case: idx, NWal: nwal, NSer: nser, Ops: ops, Pre: pre, Images: []Image{}}
+	h = History{Case: idx, NWal: nwal, NSer: nser, Ops: ops, Pre: pre, Auto: auto, Async: async, Images: []Image{}}
 	base := filepath.Join(work, "c01", strconv.Itoa(idx))
 	dir := filepath.Join(base, "live")
 	_ = os.RemoveAll(base)
@@ -358,6 +384,10 @@ func runHistory(idx int, work string, nser, nwal, pre int, ops []Op, r *gen.Rand
 		}
 	}()
 	tsdrv.SetWalPartitions(nwal)
+	if auto {
+		config.SetShardMemTableSizeLimit(1)
+		defer config.SetShardMemTableSizeLimit(30 * 1024 * 1024)
+	}
 	sh, err := tsdrv.Open(dir, nser)
 	if err != nil {
 		h.Crash = "open: " + err.Error()
@@ -379,13 +409,16 @@ func runHistory(idx int, work string, nser, nwal, pre int, ops []Op, r *gen.Rand
 	nimg := 0
 	capImg := 14
 	if dense {
-		capImg = 70
+		capImg = 36
 	}
 	if !quick {
 		capImg = 400
 	}
 	wal := map[string][]int{}
 	walEpoch := map[string]int{}
+	txnData := map[string][]byte{} // contents of the index transaction files written so far (rel path -> bytes)
+	txnFinal := map[string][]byte{}
+	var txnOrder []string
 	cur, acked := 0, 0
 	inWrite := false
 	paused := false
@@ -412,8 +445,9 @@ func runHistory(idx int, work string, nser, nwal, pre int, ops []Op, r *gen.Rand
 	ch := func(num, den int) bool { return !quick || dense || r.Chance(num, den) }
 	isIndex := func(p string) bool { return strings.Contains(rel(p), "index"+string(os.PathSeparator)) }
 	walDone := false // the WAL record of the write in flight is completely on disk
+	inDrop := false
 	infl := func() int {
-		if inWrite {
+		if inWrite || inDrop {
 			return cur
 		}
 		return -1
@@ -452,6 +486,14 @@ func runHistory(idx int, work string, nser, nwal, pre int, ops []Op, r *gen.Rand
 		}
 	}, func(ev *crashfs.Event) {
 		rp := rel(ev.Path)
+		txnSeg := "mergeset" + string(os.PathSeparator) + "txn" + string(os.PathSeparator)
+		if ev.Kind == "rename" && strings.Contains(rel(ev.Path2), txnSeg) {
+			// transaction files are written under a temporary name and renamed into place
+			if d, ok := txnData[rp]; ok {
+				txnFinal[rel(ev.Path2)] = d
+				txnOrder = append(txnOrder, rel(ev.Path2))
+			}
+		}
 		switch {
 		case ev.Kind == "write" && isWal(ev.Path):
 			if inWrite {
@@ -470,6 +512,9 @@ func runHistory(idx int, work string, nser, nwal, pre int, ops []Op, r *gen.Rand
 		case ev.Kind == "sync" && isWal(ev.Path):
 			// periodic/explicit syncs of log files change nothing under process-kill semantics
 		case isIndex(ev.Path):
+			if ev.Kind == "write" && strings.Contains(rp, "mergeset"+string(os.PathSeparator)+"txn"+string(os.PathSeparator)) {
+				txnData[rp] = append(txnData[rp], ev.Data...)
+			}
 			if ch(1, 12) {
 				take("index: after "+ev.Kind+" "+filepath.Base(ev.Path), infl(), -1, nil, false)
 			}
@@ -519,10 +564,32 @@ func runHistory(idx int, work string, nser, nwal, pre int, ops []Op, r *gen.Rand
 				return
 			}
 			acked = i + 1
+			if auto && r.Chance(1, 3) {
+				time.Sleep(110 * time.Millisecond) // let the snapshot timer see the (over-full) memtable
+			}
 			if ch(1, 3) || i == len(ops)-1 || (paused && i >= pre) {
 				cur = i + 1
 				rec.Locked(func() { take("after acknowledgement of op "+strconv.Itoa(i), -1, -1, nil, i == len(ops)-1 || paused) })
 			}
+		case "D":
+			if paused {
+				sh.V.FinishPausedFlush()
+				paused = false
+			}
+			inDrop = true
+			err := sh.V.VerifDropMeasurement(tsdrv.Mst)
+			inDrop = false
+			if err != nil {
+				rec.Stop()
+				h.Crash = fmt.Sprintf("drop op %d: %v", i, err)
+				return
+			}
+			acked = i + 1
+			epoch++
+			h.Flags.Drops++
+			lastEpoch = map[tsdrv.Key]int{}
+			cur = i + 1
+			rec.Locked(func() { take("after acknowledgement of drop op "+strconv.Itoa(i), -1, -1, nil, true) })
 		case "FB":
 			if sh.V.BeginPausedFlush() {
 				paused = true
@@ -558,6 +625,22 @@ func runHistory(idx int, work string, nser, nwal, pre int, ops []Op, r *gen.Rand
 	if paused {
 		sh.V.FinishPausedFlush()
 	}
+	// corpus-like image: the last two index transactions are still pending (their files are removed asynchronously,
+	// after the parts they replaced are gone): the final state plus the two transaction files as they were written
+	if len(txnOrder) >= 2 {
+		cur = len(ops)
+		rec.Locked(func() {
+			take("planted: final state with the last two index transaction files not yet removed", -1, -1, nil, true)
+			d := pend[len(pend)-1].dir
+			for _, rp := range txnOrder[len(txnOrder)-2:] {
+				p := filepath.Join(d, rp)
+				_ = os.MkdirAll(filepath.Dir(p), 0750)
+				if _, err := os.Stat(p); err != nil {
+					_ = os.WriteFile(p, txnFinal[rp], 0600)
+				}
+			}
+		})
+	}
 	rec.Stop()
 	_ = sh.Close()
 	closed = true
@@ -570,9 +653,16 @@ func runHistory(idx int, work string, nser, nwal, pre int, ops []Op, r *gen.Rand
 			if ops[i].K == "W" {
 				l.Apply(ops[i].Rows)
 			}
+			if ops[i].K == "D" {
+				l = tsdrv.NewLWW() // an acknowledged drop: nothing written before may come back
+			}
 		}
 		if inflight >= 0 {
-			l.Apply(ops[inflight].Rows)
+			if ops[inflight].K == "D" {
+				l = tsdrv.NewLWW()
+			} else {
+				l.Apply(ops[inflight].Rows)
+			}
 		}
 		return l
 	}
@@ -672,6 +762,20 @@ func runHistory(idx int, work string, nser, nwal, pre int, ops []Op, r *gen.Rand
 				im.Match = "acked+inflight"
 				return
 			}
+			if ops[im.Inflight].K == "D" {
+				// a drop that was not acknowledged: any part of the measurement may already be gone, nothing may change
+				sub := true
+				pre := expect(im.Acked, -1)
+				for k, g := range got {
+					if v, ok := pre.M[k]; !ok || v != g {
+						sub = false
+					}
+				}
+				if sub {
+					im.Match = "partial-drop"
+					return
+				}
+			}
 			if len(d2) < len(d1) {
 				d1 = d2 // report the difference against the closer of the two allowed states
 			}
@@ -730,17 +834,19 @@ func main() {
 			fmt.Fprintln(os.Stderr, err)
 			os.Exit(2)
 		}
-		_ = enc.Encode(runHistory(h.Case, work, h.NSer, h.NWal, h.Pre, h.Ops, gen.FromEnv(1001), rec, false))
+		_ = enc.Encode(runHistory(h.Case, work, h.NSer, h.NWal, h.Pre, h.Auto, h.Async, h.Ops, gen.FromEnv(1001), rec, false))
 		fmt.Fprintln(os.Stderr, "c01 done")
 		return
 	}
 	// the witness first
 	ns, nw, ops := witness()
-	_ = enc.Encode(runHistory(100000, work, ns, nw, 0, ops, gen.FromEnv(1001), rec, quick))
+	_ = enc.Encode(runHistory(100000, work, ns, nw, 0, false, false, ops, gen.FromEnv(1001), rec, quick))
 	ns, nw, pre, ops := aged8()
-	_ = enc.Encode(runHistory(100001, work, ns, nw, pre, ops, gen.FromEnv(1002), rec, quick))
+	_ = enc.Encode(runHistory(100001, work, ns, nw, pre, false, false, ops, gen.FromEnv(1002), rec, quick))
 	ns, nw, pre, ops = newSeriesBeforeFlush()
-	_ = enc.Encode(runHistory(100002, work, ns, nw, pre, ops, gen.FromEnv(1003), rec, quick))
+	_ = enc.Encode(runHistory(100002, work, ns, nw, pre, false, false, ops, gen.FromEnv(1003), rec, quick))
+	ns, nw, pre, ops = dropHistory()
+	_ = enc.Encode(runHistory(100003, work, ns, nw, pre, false, false, ops, gen.FromEnv(1004), rec, quick))
 	master := gen.FromEnv(1)
 	for i := 0; i < n; i++ {
 		r := master.Fork()
@@ -748,7 +854,7 @@ func main() {
 		if only := os.Getenv("VERIF_ONLY"); only != "" && only != strconv.Itoa(i) {
 			continue
 		}
-		_ = enc.Encode(runHistory(i, work, nser, nwal, pre, ops, r.Fork(), rec, quick))
+		_ = enc.Encode(runHistory(i, work, nser, nwal, pre, r.Chance(1, 6), false, ops, r.Fork(), rec, quick))
 	}
 	fmt.Fprintln(os.Stderr, "c01 done")
 }
